@@ -132,6 +132,13 @@ def run(prop, tier, seed, replay):
                 cols = base_cols(True)
                 cols["patch"][idx] = bad
                 add(f"patch-id-{bad}", dict(common, columns=cols, patch_name=True), "raise", pname)
+            # a missing value in the patch-index column (the column then arrives as floats; NaN is neither a valid index
+            # nor comparable with the limits)
+            for bad_f in ((None,) if tier == "quick" else (None, float("inf"))):
+                cols = base_cols(True)
+                cols["patch"] = [float(v) for v in cols["patch"]]
+                cols["patch"][idx] = bad_f
+                add(f"patch-id-{'missing' if bad_f is None else bad_f}", dict(common, columns=cols, patch_name=True), "raise", pname)
             add("reader-fault", dict(common, columns=base_cols(), centres=centres,
                                      reader_fault_at={"first": 0, "middle": 2, "last": 4}[pname]), "raise", pname)
         add("worker-fault", dict(common, columns=base_cols(), centres=[[0.1, 0.0], [float("nan"), 0.1], [0.2, -0.2]]), "raise")
